@@ -93,6 +93,11 @@ func runC12(c *Ctx) {
 				}
 			}
 		}
+		if r.Intn(40) == 0 {
+			// a label that is neither integer nor text: nothing may be produced
+			mon.Pick(r, map[any]any(h.Protected), map[any]any(h.Unprotected))[mon.Pick[any](r, 1.5, true, [2]byte{1, 2})] = int64(1)
+			placement += "bad-label-type,"
+		}
 		ha := mon.Pick(r, cose.AlgorithmSHA256, cose.AlgorithmSHA256, cose.AlgorithmSHA384, cose.AlgorithmSHA512, cose.Algorithm(-999), cose.Algorithm(0), cose.AlgorithmES256)
 		want := map[cose.Algorithm]int{cose.AlgorithmSHA256: 32, cose.AlgorithmSHA384: 48, cose.AlgorithmSHA512: 64}[ha]
 		hl := want
